@@ -388,20 +388,33 @@ def _check_keyless_memos(prog: Program, res: Result):
     for cq, c in sorted(prog.classes.items()):
         ea = None
         for mname, m in c.methods.items():
-            body = [s_ for s_ in m.node.body if not (isinstance(s_, ast.Expr) and isinstance(s_.value, ast.Constant))]
-            if not body or not isinstance(body[0], ast.If) or body[0].orelse:
+            # the guard: the first statement after the docstring and plain local assignments (the memo key may be prepared there)
+            g = None
+            for s_ in m.node.body:
+                if isinstance(s_, ast.Expr) and isinstance(s_.value, ast.Constant):
+                    continue
+                if isinstance(s_, ast.Assign) and all(isinstance(t_, ast.Name) for t_ in s_.targets):
+                    continue
+                g = s_
+                break
+            if not isinstance(g, ast.If) or g.orelse:
                 continue
-            g = body[0]
             if not (len(g.body) == 1 and isinstance(g.body[0], ast.Return)):
                 continue
-            t = g.test
+            conj = g.test.values if isinstance(g.test, ast.BoolOp) and isinstance(g.test.op, ast.And) else [g.test]
             x = None
-            if isinstance(t, ast.Compare) and len(t.ops) == 1 and isinstance(t.ops[0], ast.IsNot) and isinstance(t.comparators[0], ast.Constant) and t.comparators[0].value is None:
-                x = attr_chain(t.left)
-            elif isinstance(t, ast.Attribute):
-                x = attr_chain(t)
+            for t in conj:
+                if isinstance(t, ast.Compare) and len(t.ops) == 1 and isinstance(t.ops[0], ast.IsNot) and isinstance(t.comparators[0], ast.Constant) and t.comparators[0].value is None:
+                    x = x or attr_chain(t.left)
+                elif isinstance(t, ast.Attribute):
+                    x = x or attr_chain(t)
             if not x or not x.startswith("self.") or x.count(".") != 1:
                 continue
+            # what the other conjuncts compare is the memo's key: attributes read there are covered by it
+            from ..model import inline_single_defs
+
+            keyed = {attr_chain(a) for t in conj for a in ast.walk(inline_single_defs(m.node, t)) if isinstance(a, ast.Attribute) and attr_chain(a)}
+            keyed = {k for k in keyed if k and k.startswith("self.")} - {x}
             # the producer must assign x later in the same method
             if not any(isinstance(n, ast.Assign) and any(attr_chain(tt) == x for tt in n.targets) for n in ast.walk(m.node)):
                 continue
@@ -409,17 +422,17 @@ def _check_keyless_memos(prog: Program, res: Result):
             if ea is None:
                 ea = EffectAnalyzer(prog)
             eff = ea.method(m)
-            deps = {r for r in eff.exposed if r != x and not r.startswith(x + ".")}
+            deps = {r for r in eff.exposed if r != x and not r.startswith(x + ".") and not any(r == k or r.startswith(k + ".") for k in keyed)}
             stale = []
             for wname, w in c.methods.items():
                 if w is m or wname == "__init__":
                     continue
                 we = ea.method(w)
                 hit = sorted(d for d in deps if any(d == ww or d.startswith(ww + ".") or ww.startswith(d + ".") for ww in we.may_write))
-                if hit and not any(ww == x for ww in we.may_write):
+                if hit and not any(ww == x for ww in we.may_write) and not any(k == ww or ww.startswith(k + ".") for ww in we.may_write for k in keyed):
                     stale.append((w, hit))
             ok = not stale
-            res.ob("R13.9", f"{c.name}.{mname} keeps {x} once it is set; every method that changes what it is built from resets it", ok, prog.loc(m, g))
+            res.ob("R13.9", f"{c.name}.{mname} keeps {x} once it is set{' (key: ' + ', '.join(sorted(keyed)) + ')' if keyed else ''}; every method that changes what it is built from resets it", ok, prog.loc(m, g))
             for w, hit in stale[:3]:
                 res.violation("R13.9", f"{cq}.{mname}|{x}|{w.name}", prog.loc(w, w.node), w.qualname,
                               f"{c.name}.{mname}() returns early when {x} is already set, but {w.name}() changes {hit[:3]} (which {mname} reads) without resetting {x}: "
@@ -650,6 +663,11 @@ VARIANTS = [
              ("ghedesigner.search_routines", "        self.searchTracker = []\n        coordinates = coordinates_domain[0]", "        coordinates = coordinates_domain[0]")], "R13.8"),
     Variant("prepare_results keeps the first result for the lifetime of the manager (seeded C12_d)", "break",
             [(M, "    def prepare_results(self, project_name: str, note: str, author: str, iteration_name: str):\n", "    def prepare_results(self, project_name: str, note: str, author: str, iteration_name: str):\n        if self.results is not None:\n            return\n")], "R13.9"),
+    Variant("prepare_results keeps the earlier result while the report labels are unchanged (seeded C19_d)", "break",
+            [(M, "    def prepare_results(self, project_name: str, note: str, author: str, iteration_name: str):\n", "    def prepare_results(self, project_name: str, note: str, author: str, iteration_name: str):\n        labels = (project_name, note, author, iteration_name)\n        if self.results is not None and labels == getattr(self, '_results_labels', None):\n            return\n        self._results_labels = labels\n")], "R13.9"),
+    Variant("prepare_results keeps the earlier result while labels AND the search object are unchanged", "benign",
+            [(M, "    def prepare_results(self, project_name: str, note: str, author: str, iteration_name: str):\n", "    def prepare_results(self, project_name: str, note: str, author: str, iteration_name: str):\n        labels = (project_name, note, author, iteration_name)\n        if self.results is not None and labels == self._results_labels and self._search is self._results_search:\n            return\n        self._results_labels = labels\n        self._results_search = self._search\n"),
+             (M, "        self.results: OutputManager | None = None\n", "        self.results: OutputManager | None = None\n        self._results_labels = None\n        self._results_search = None\n")]),
     Variant("radius correction applied in place to the curve it is given (seeded C13_b)", "break",
             [("ghedesigner.gfunction", """        g_function_corrected = []
         for g in g_function:
